@@ -29,43 +29,59 @@ theorem mem_flatMap_map {α β γ : Type} (g : α → β → γ) {l : List α} {
   · rintro ⟨a, ha, b, hb, rfl⟩; exact ⟨a, ha, b, hb, rfl⟩
 
 /-- the head symbols: a duplicate-free listing of the instantiations of the symbol -/
-theorem allInstSym_spec {tbl : Tbl} {P : Sym} (h : symOK tbl P = true) :
-    ∃ hs, allInstSym tbl P = some hs ∧ hs.Nodup ∧ ∀ k, k ∈ hs ↔ symInst tbl P k = true := by
+theorem allInstSym_spec {fx : Fix} {tbl : Tbl} {P : Sym} (h : symOK fx tbl P = true) :
+    ∃ hs, allInstSym fx tbl P = some hs ∧ hs.Nodup ∧ ∀ k, k ∈ hs ↔ symInst tbl P k = true := by
   unfold symOK at h
-  unfold allInstSym symInst isSlot
+  unfold allInstSym
   by_cases hk : P.kind = .const
-  · simp only [hk, decide_true, Bool.not_true, Bool.false_or, Bool.and_eq_true,
-      decide_eq_true_eq] at h
-    obtain ⟨hP, hv⟩ := h
-    cases hl : AList.lookup P.ty tbl with
-    | none => rw [hl] at hv; cases hv
-    | some vals =>
-      rw [hl] at hv
-      simp only at hv
-      have hname : P.name = "" := by rw [hP]; rfl
-      refine ⟨vals.map (fun v => Sym.const P.ty v), by simp [hk], ?_, ?_⟩
-      · unfold valsOK at hv
-        simp only [Bool.and_eq_true, decide_eq_true_eq] at hv
-        exact List.Nodup.map (fun a b e => (const_inj e).2) hv.1
-      · intro k
-        simp only [hk, hname, AList.contains, hl, decide_true, Bool.and_self, Option.isSome_some,
-          if_true, List.mem_map, List.any_eq_true, decide_eq_true_eq]
+  · simp only [hk, decide_true, Bool.not_true, Bool.false_or] at h
+    rw [if_pos hk]
+    by_cases hn : P.name = ""
+    · rw [if_pos hn] at h
+      have hc : fx.isConst P = true := by simp [Fix.isConst, hk, hn]
+      rw [if_pos hc]
+      cases hl : AList.lookup P.ty tbl with
+      | none =>
+        rw [hl] at h
+        simp only at h
+        refine ⟨[P], by simp [h], by simp, ?_⟩
+        intro k
+        have : isSlot tbl P = false := by simp [isSlot, AList.contains, hl]
+        rw [symInst_of_not_isSlot this]; simp
+      | some vals0 =>
+        rw [hl] at h
+        simp only [decide_eq_true_eq] at h
+        refine ⟨_, rfl, List.Nodup.map (fun a b e => (const_inj e).2) h, ?_⟩
+        intro k
+        have : isSlot tbl P = true := by simp [isSlot, hk, hn, AList.contains, hl]
+        unfold symInst
+        rw [this]
+        simp only [if_true, hl, List.mem_map, List.any_eq_true, decide_eq_true_eq]
         constructor
-        · rintro ⟨v, hv', rfl⟩; exact ⟨v, hv', rfl⟩
-        · rintro ⟨v, hv', rfl⟩; exact ⟨v, hv', rfl⟩
-  · refine ⟨[P], by simp [hk], by simp, ?_⟩
+        · rintro ⟨v, hv, rfl⟩; exact ⟨v, mem_fxvals.mp hv, rfl⟩
+        · rintro ⟨v, hv, rfl⟩; exact ⟨v, mem_fxvals.mpr hv, rfl⟩
+    · rw [if_neg hn] at h
+      have hc : fx.isConst P = false := by simp [Fix.isConst, hk, hn, h]
+      rw [hc]
+      refine ⟨[P], by simp, by simp, ?_⟩
+      intro k
+      have : isSlot tbl P = false := by simp [isSlot, hn]
+      rw [symInst_of_not_isSlot this]; simp
+  · rw [if_neg hk]
+    refine ⟨[P], rfl, by simp, ?_⟩
     intro k
-    simp [hk]
+    have : isSlot tbl P = false := by simp [isSlot, hk]
+    rw [symInst_of_not_isSlot this]; simp
 
 mutual
-  theorem allInst_spec (tbl : Tbl) : ∀ (t : Prog), progOK tbl t = true →
-      ∃ l, allInst tbl t = some l ∧ l.Nodup ∧ ∀ t', t' ∈ l ↔ isInst tbl t t' = true
+  theorem allInst_spec (fx : Fix) (tbl : Tbl) : ∀ (t : Prog), progOK fx tbl t = true →
+      ∃ l, allInst fx tbl t = some l ∧ l.Nodup ∧ ∀ t', t' ∈ l ↔ isInst tbl t t' = true
     | .node f kids => by
       intro h
       unfold progOK at h
       rw [Bool.and_eq_true] at h
       obtain ⟨hs, e1, nd1, m1⟩ := allInstSym_spec h.1
-      obtain ⟨poss, e2, nd2, m2⟩ := allInstList_spec tbl kids h.2
+      obtain ⟨poss, e2, nd2, m2⟩ := allInstList_spec fx tbl kids h.2
       have key : ∀ t', t' ∈ (hs.flatMap fun f' => (product poss).map (fun ks => Tree.node f' ks)) ↔
           isInst tbl (.node f kids) t' = true := by
         intro t'
@@ -89,8 +105,8 @@ mutual
         refine ⟨_, by unfold allInst; rw [e1, e2], ?_, key⟩
         exact nodup_flatMap_map (fun f' ks => Tree.node f' ks)
           (fun a b a' b' e => by cases e; exact ⟨rfl, rfl⟩) nd1 nd2
-  theorem allInstList_spec (tbl : Tbl) : ∀ (ks : List Prog), progOKList tbl ks = true →
-      ∃ poss, allInstList tbl ks = some poss ∧ (product poss).Nodup ∧
+  theorem allInstList_spec (fx : Fix) (tbl : Tbl) : ∀ (ks : List Prog), progOKList fx tbl ks = true →
+      ∃ poss, allInstList fx tbl ks = some poss ∧ (product poss).Nodup ∧
         ∀ ks', ks' ∈ product poss ↔ isInstList tbl ks ks' = true
     | [] => by
       intro _
@@ -101,8 +117,8 @@ mutual
       intro h
       unfold progOKList at h
       rw [Bool.and_eq_true] at h
-      obtain ⟨l, e1, nd1, m1⟩ := allInst_spec tbl k h.1
-      obtain ⟨ls, e2, nd2, m2⟩ := allInstList_spec tbl ks h.2
+      obtain ⟨l, e1, nd1, m1⟩ := allInst_spec fx tbl k h.1
+      obtain ⟨ls, e2, nd2, m2⟩ := allInstList_spec fx tbl ks h.2
       refine ⟨l :: ls, by unfold allInstList; rw [e1, e2], ?_, ?_⟩
       · unfold product
         exact nodup_flatMap_map (fun x r => x :: r)
